@@ -220,14 +220,14 @@ def run(case: dict, lean: Lean) -> Outcome:
         f0 = rnd.choice(fsets); ilc = ItemListCollection.empty(UserIDKey)
         for k in rnd.sample(range(1, 50), case["n"]):
             fl = f0 if case["same_fields"] else rnd.choice(fsets)
-            ilc.add(_mk_il(rnd, rnd.randint(0, 4), False, fl, True), user_id=k)
+            ilc.add(_mk_il(rnd, rnd.randint(0, 4), False, fl, rnd.random() < 0.7), user_id=k)
         want = [(tuple(k), canon(v)) for k, v in ilc.items()]
         tmp = tempfile.mkdtemp(prefix="c15_", dir=WORK)
         try:
             p = Path(tmp) / "x.parquet"; ilc.save_parquet(p); got = [(tuple(k), canon(v)) for k, v in ItemListCollection.load_parquet(p).items()]
             if len(got) != len(want): failed.append(f"{len(want)} lists -> {len(got)}")
             for (k1, a), (k2, b) in zip(want, got):
-                if k1 != k2 or not _same(a, b): failed.append(f"{k1}: {a} -> {k2}: {b}")
+                if k1 != k2 or not _same(a, b) or a["ordered"] != b["ordered"]: failed.append(f"{k1}: {a} -> {k2}: {b}")
         except Exception as e:
             failed.append(f"parquet: {type(e).__name__}: {str(e)[:70]}")
         finally:
@@ -237,9 +237,13 @@ def run(case: dict, lean: Lean) -> Outcome:
         if case["n"] == 0: classes.append("empty collection")
         if 0 in lens: classes.append("contains empty list")
         if mixed: classes.append("lists with differing fields")
+        if failed and all(("'ordered': False" in f.split(" -> ")[0] and "'ordered': True" in f.split(" -> ")[-1]
+                           and f.split(" -> ")[0].replace("'ordered': False", "'ordered': True").split(": ", 1)[1] == f.split(" -> ")[-1].split(": ", 1)[1]) for f in failed if " -> " in f) \
+                and all(" -> " in f for f in failed) and not any("'ids': []" in f for f in failed):
+            key = "an unordered list stored next to ordered lists reloads as ordered"
         # what remains unrepaired concerns empty collections and empty lists only; a failure on a non-empty list is a new violation
         only_empty = all(f.startswith("parquet:") or f.split(": {'ids': []")[0] != f for f in failed)
-        if failed and (case["n"] == 0 or 0 in lens) and only_empty: key = "ItemListCollection.save_parquet: empty collection / empty lists"
+        if key is None and failed and (case["n"] == 0 or 0 in lens) and only_empty: key = "ItemListCollection.save_parquet: empty collection / empty lists"
     else:
         ds = make_ds(case["seed"] % 1000, extra_class=case["extra"]); fp = fingerprint(ds)
         tmp = tempfile.mkdtemp(prefix="c15_", dir=WORK)
